@@ -621,3 +621,13 @@ B("C12", "url.dotpath label inverted", NET, '    return b"/".join(dotless), "url
 N("C12", "MixedCase test as two inequalities", NET, "if url_text[0 : len(url.scheme)] not in (url.scheme, url.scheme.upper())", "if url_text[0 : len(url.scheme)] != url.scheme and url_text[0 : len(url.scheme)] != url.scheme.upper()")
 N("C15", "StrReverse value through bytes(reversed(...))", D + "vba.py", 'lambda s: (s[-2:0:-1], "vba.reverse")', 'lambda s: (bytes(reversed(s[1:-1])), "vba.reverse")')
 B("C15", "StrReverse value is the reversed literal with its quotes", D + "vba.py", 'lambda s: (s[-2:0:-1], "vba.reverse")', 'lambda s: (bytes(reversed(s)), "vba.reverse")', "R1-evaluation")
+
+# ------------------------------------------------------------------ rules added after round 10 (seeds t01-t20)
+GUARD_OLD = '            if dotless and dotless != [b""]:  # .. cannot go above the root of an absolute path\n'
+B("C12", "'..' refuses to cancel any empty segment (seed t12)", NET, GUARD_OLD, "            if dotless and dotless[-1]:\n", "R4-labels")
+N("C12", "root guard spelled with lengths", NET, GUARD_OLD, "            if len(dotless) > 1 or (dotless and dotless[0]):\n")
+B("C16", "look-back slice starts one byte earlier and wraps at offset 0 (seed t16)", SH, "data[start::-1])", "data[start - 1 :: -1])", "R7-delimiting")
+IP_OLD = '    try:\n        return b.decode("ascii").isprintable()\n    except UnicodeDecodeError:\n        return False\n'
+B("C11", "_is_printable as a full match that rejects the empty text (seed t11)", NET, IP_OLD, '    return re.fullmatch(rb"[\\x20-\\x7e]+", b) is not None\n', "R5-filters")
+N("C11", "_is_printable as a full match of printable ASCII, empty text included", NET, IP_OLD, '    return re.fullmatch(rb"[\\x20-\\x7e]*", b) is not None\n')
+B("C20", "--replace compares case-insensitively (seed t20)", QUERY, "        if node_data != data[node.start : node.end]:", "        if node_data.lower() != data[node.start : node.end].lower():", "via-C19.R-tiling")
